@@ -298,6 +298,50 @@ pub fn emit_late(span: tracing::Span, idx: usize, via_thread: bool) {
     }
 }
 
+/// A run of the crate nested inside a step: own World type, own `runner::Basic` (no collector: the global one
+/// is the outer run's), one scenario whose steps log the given tokens.
+#[cfg(feature = "tracing")]
+mod nested {
+    use cucumber::{Runner as _, World, gherkin, runner, step};
+    use futures::{StreamExt as _, future::LocalBoxFuture};
+
+    #[derive(Debug, Default)]
+    pub struct NestedWorld;
+
+    impl World for NestedWorld {
+        type Error = std::convert::Infallible;
+        async fn new() -> Result<Self, Self::Error> {
+            Ok(Self)
+        }
+    }
+
+    // (the token travels in the step's text: nested runs of several outer steps overlap)
+    fn inner_step(_w: &mut NestedWorld, c: step::Context) -> LocalBoxFuture<'_, ()> {
+        Box::pin(async move {
+            let text = c.step.value.clone();
+            let mut parts = text.split(' ').skip(2);
+            let (t, warn) = (parts.next().unwrap_or("?").to_owned(), parts.next() == Some("warn"));
+            if warn {
+                tracing::warn!("nested run {t}");
+            } else {
+                tracing::info!("nested run {t}");
+            }
+        })
+    }
+
+    pub async fn run(tokens: Vec<String>, warn: bool) {
+        let mut text = String::from("Feature: nested\n  Scenario: inner\n");
+        for t in &tokens {
+            text.push_str(&format!("    Given inner step {t}{}\n", if warn { " warn" } else { " info" }));
+        }
+        let feature = gherkin::Feature::parse(text, gherkin::GherkinEnv::default()).expect("harness: nested feature parses");
+        let steps = step::Collection::new().given(None, regex::Regex::new("^inner step \\S+ \\w+$").expect("harness: regex"), inner_step);
+        let runner = runner::Basic::<NestedWorld>::default().steps(steps).max_concurrent_scenarios(1);
+        let mut events = runner.run(futures::stream::iter([Ok(feature)]), runner::basic::Cli::default());
+        while events.next().await.is_some() {}
+    }
+}
+
 struct InCb(Rc<RunCtx>);
 impl Drop for InCb {
     fn drop(&mut self) {
@@ -314,6 +358,8 @@ async fn callback(
     finished_arg: Option<String>,
 ) {
     let ctx = run_ctx();
+    #[cfg(feature = "tracing")]
+    let is_step = kind == CbKind::Step;
     let ordinal = ctx.next_ordinal(&site);
     let beh: Behaviour = ctx.plan.behaviour(&site, ordinal);
     let enter = ctx.core.now_ns();
@@ -355,6 +401,13 @@ async fn callback(
         }
     };
     log_n(beh.logs.0);
+    // a nested run of the crate inside this step: its steps' logs belong to this step
+    #[cfg(feature = "tracing")]
+    if ctx.emit_logs && ctx.plan.nested_runs && is_step && (idx as u64 + ctx.plan.seed) % 3 == 0 {
+        let toks: Vec<String> = (0..1 + idx % 2).map(|_| format!("log{}", ctx.new_token())).collect();
+        ctx.cb_log.borrow_mut()[idx].log_tokens.extend(toks.iter().cloned());
+        nested::run(toks, ctx.warn_filter).await;
+    }
     #[cfg(feature = "tracing")]
     if ctx.emit_logs && !beh.awaits.is_empty() && idx % 3 == 0 {
         *ctx.behalf.borrow_mut() = Some((tracing::Span::current(), idx));
